@@ -57,6 +57,8 @@ typedef struct frun_s {
   char sig[64];
   char err[600];
   int fired;
+  int learn;              /* fault-free run with the call log on (same code path as the faulted runs) */
+  long ncalls_hist;       /* calls made up to the end of the history */
   vfs_t *killed;          /* image of everything written at the end of the faulted run */
   kobs_t after_close;     /* observation after clean close + reopen */
   int reopen_rc;
@@ -145,6 +147,10 @@ fault_body(void *arg) {
   vfs_cur->fault.err = r->plan.err;
   vfs_cur->fault.persistent = r->plan.persistent;
   vfs_cur->fault.short_n = r->plan.short_n;
+  if (r->learn) {
+    vfs_cur->fault.at = -1;
+    vfs_cur->log_calls = 1;
+  }
   rc = kh_open(&h);
   if (rc != LDB_OK)
     n_open_failed_in_run++;
@@ -170,12 +176,15 @@ fault_body(void *arg) {
     }
     rc = kh_apply(&h, &r->h->ops[i]);
     r->statuses[i] = rc;
+    if (getenv("VH_DEBUG_FAULT"))
+      fprintf(stderr, "op %d kind %c status %d db=%p fired=%d ncalls=%ld\n", i, r->h->ops[i].kind, rc, (void *)h.db, vfs_cur->fault.fired, vfs_cur->ncalls);
     if (rc != LDB_OK)
       n_err_status_ops++;
     if (h.db)
       check_reads(&h, r, i);
   }
   r->fired = vfs_cur->fault.fired;
+  r->ncalls_hist = vfs_cur->ncalls;
   memcpy(r->acks, h.acks, sizeof(r->acks));
   r->nacks = h.nacks;
   /* ending (b): kill now - everything written so far is what the OS keeps */
@@ -384,14 +393,19 @@ explore_history(const hist_t *h) {
   int paranoid;
   memset(&r, 0, sizeof(r));
   r.h = h;
+  r.learn = 1;
+  r.plan.at = -1; r.plan.short_n = -1; r.plan.at2 = -1;
   vfs_use(v);
   memset(&sc, 0, sizeof(sc));
   sc.hook_points = 1;
   sc.step_max = 2000000;
-  if (sch_run(learn_body, &r, &sc) != SCH_OK)
-    vh_die("fault-free run did not complete");
+  /* the fault-free run goes through exactly the code path of the faulted runs (incl. the reads
+   * after every operation), so call index k names the same call in both */
+  if (sch_run(fault_body, &r, &sc) != SCH_OK || !r.ok)
+    vh_die("fault-free run did not complete or failed its own oracle: %s", r.err);
+  if (r.killed) { vfs_free(r.killed); r.killed = NULL; }
   free(calllog);
-  ncalllog = v->ncalls;
+  ncalllog = r.ncalls_hist;
   calllog = malloc(sizeof(vcall_t) * (size_t)(ncalllog + 1));
   memcpy(calllog, v->calls, sizeof(vcall_t) * (size_t)ncalllog);
   vfs_free(v);
@@ -560,16 +574,19 @@ main(int argc, char **argv) {
     p.short_n = json_long(drv.replay, "short_n", -1);
     p.at2 = json_long(drv.replay, "at2", -1);
     p.err2 = (int)json_long(drv.replay, "err2", 0);
-    /* call log for the description */
+    /* call log for the description (same code path as the faulted run) */
     memset(&lr, 0, sizeof(lr));
     lr.h = &h;
+    lr.learn = 1;
+    lr.plan.at = -1; lr.plan.short_n = -1; lr.plan.at2 = -1;
     v = vfs_new();
     vfs_use(v);
     memset(&sc, 0, sizeof(sc));
     sc.hook_points = 1;
     sc.step_max = 2000000;
-    if (sch_run(learn_body, &lr, &sc) != SCH_OK) vh_die("fault-free run did not complete");
-    ncalllog = v->ncalls;
+    if (sch_run(fault_body, &lr, &sc) != SCH_OK) vh_die("fault-free run did not complete");
+    if (lr.killed) vfs_free(lr.killed);
+    ncalllog = lr.ncalls_hist;
     calllog = malloc(sizeof(vcall_t) * (size_t)(ncalllog + 1));
     memcpy(calllog, v->calls, sizeof(vcall_t) * (size_t)ncalllog);
     vfs_free(v);
